@@ -70,8 +70,64 @@ def shift_text(rng):
     return "a" * pad + ch + rng.choice(("", "b", ch))
 
 
+# ---------------------------------------------------------------- (5) boundary matrix
+
+NUM_FUNCS_2 = ["+", "-", "*", "/", "%", "add", "minus", "times", "divide", "mod", "<", "=", "take", "take_last", "head", "tail", "get", "range",
+               "format_time", "sub"]
+NUM_FUNCS_1 = ["abs", "round", "floor", "ceil", "-", "range", "stringify", "as_number", "not", "size"]
+NAS_FUNCS_2 = ['"+"', '"-"', '"*"', '"/"', '"%"', '"<"', '"="']
+NAS_FUNCS_1 = ['"abs"', '"round"', '"||"', '"-"']
+NAS_EXTREMES = ["0", "-0", "1", "-1", "1e1000", "1e-1000", "-1E+999", "9" * 60, "0." + "0" * 40 + "1", "0e0", "1e", "", ".", "-", "1e999",
+                "18446744073709551616", "-9223372036854775809", "00", "1.", ".5", "+1", "1e+", "NaN", "inf"]
+STR_BOUNDARY = ["", "a", "é", "😃", "\u0000", "aa", " "]
+
+
+def gen_matrix_unit(rng):
+    """One left operand against every right operand of the boundary set, for one function (integers at the edges of i64 /
+    u64 / 2^53, extreme doubles; number-as-string operands; empty and one-character strings)."""
+    r = rng.random()
+    if r < 0.55:
+        f = rng.choice(NUM_FUNCS_2 + NUM_FUNCS_1)
+        a = rng.choice(eg.EXTREME_NUMS)
+        small = [b for b in eg.EXTREME_NUMS if abs(b) <= 10000]      # the property bounds range/collection sizes by 10^4
+        if f == "range":
+            exprs = ["(size (range %s))" % jm.dumps(b) for b in small + [10000, 9999, 2.5, -3]]
+        elif f in NUM_FUNCS_1 and rng.random() < 0.5:
+            exprs = ["(%s %s)" % (f, jm.dumps(b)) for b in eg.EXTREME_NUMS]
+        elif f in ("take", "take_last", "head", "tail", "get"):
+            subj = rng.choice(('"héllo"', "[1,2,3]", '{"a":1,"b":2}', '""', "[]"))
+            exprs = ["(%s %s %s)" % (f, subj, jm.dumps(b)) for b in eg.EXTREME_NUMS]
+        elif f == "sub":
+            subj = rng.choice(('"héllo"', "[1,2,3]", '{"a":1,"b":2}'))
+            exprs = ["(sub %s %s %s)" % (subj, jm.dumps(a), jm.dumps(b)) for b in eg.EXTREME_NUMS]
+        elif f == "format_time":
+            exprs = ['(format_time %s "%%Y-%%m-%%d %%H:%%M:%%S")' % jm.dumps(b) for b in eg.EXTREME_NUMS]
+        else:
+            exprs = ["(%s %s %s)" % (f, jm.dumps(a), jm.dumps(b)) for b in eg.EXTREME_NUMS]
+    elif r < 0.8:
+        f = rng.choice(NAS_FUNCS_2 + NAS_FUNCS_1)
+        a = rng.choice(NAS_EXTREMES)
+        if f in NAS_FUNCS_1 and rng.random() < 0.6:
+            exprs = ["(%s %s)" % (f, jm.dumps(b)) for b in NAS_EXTREMES]
+        else:
+            exprs = ["(%s %s %s)" % (f, jm.dumps(a), jm.dumps(b)) for b in NAS_EXTREMES]
+    else:
+        f = rng.choice(("split", "concat", "join", "match", "extract_regex_group", "parse", "parse_time", "base63_decode", "env", "put", "get"))
+        a = rng.choice(STR_BOUNDARY)
+        tm = {"split": "(split %s %s)", "concat": "(concat %s %s)", "join": "(join [%s, %s] %s)", "match": "(match %s %s)",
+              "extract_regex_group": "(extract_regex_group %s %s 0)", "parse": "(parse (concat %s %s))", "parse_time": "(parse_time %s %s)",
+              "base63_decode": "(base63_decode (concat %s %s))", "env": "(env (concat %s %s))", "put": "(put {} %s %s)", "get": "(get {\"\":1} (concat %s %s))"}[f]
+        exprs = []
+        for b in STR_BOUNDARY:
+            qa, qb = '"%s"' % a, '"%s"' % b
+            exprs.append(tm % ((qa, qb, qb) if tm.count("%s") == 3 else (qa, qb)))
+    return {"kind": "expr", "pos": "select", "exprs": exprs, "funcs": [f], "matrix": True,
+            "input": b'null {"n":-9223372036854775808,"m":-1,"s":"","u":18446744073709551615}', "policy": rng.choice(POLICIES)}
+
+
 def gen_expr_unit(rng):
-    g = eg.Gen(rng, ill_typed=0.5 if rng.random() < 0.7 else 0.1, maxdepth=rng.choice((2, 3, 4)), nonascii=0.4, big_n=0.3)
+    g = eg.Gen(rng, ill_typed=0.5 if rng.random() < 0.7 else 0.1, maxdepth=rng.choice((2, 3, 4)), nonascii=0.4, big_n=0.3,
+               extreme_n=rng.choice((0.0, 0.1, 0.3)))
     pos = rng.choice(POSITIONS)
     exprs = [g.gen(rng.choice(eg.KINDS), eg.Scope()) for _ in range(rng.choice((1, 2, 4)))]
     # plant multi-byte subjects / patterns at every offset of the expression text
@@ -99,6 +155,9 @@ def gen_expr_unit(rng):
     inputs = [eg.gen_input(rng) for _ in range(rng.choice((1, 3, 6)))]
     if rng.random() < 0.3:
         inputs.append({"s": shift_text(rng), "u": shift_text(rng), "strs": [shift_text(rng)], "arr": [1, 2], "i": rng.choice((0, 1, 2, 33))})
+    if rng.random() < 0.25:
+        inputs.append({"n": rng.choice(eg.EXTREME_NUMS), "i": rng.choice((0, 1, 10000, 9999)), "arr": rng.sample(eg.EXTREME_NUMS, 3), "s": "", "u": "",
+                       "strs": ["", ""], "obj": {"a": rng.choice(eg.EXTREME_NUMS)}, "nas": rng.choice(NAS_EXTREMES), "t": rng.choice(eg.EXTREME_NUMS)})
     return {"kind": "expr", "pos": pos, "exprs": [eg.show(e, rng, rng.random() < 0.3) for e in exprs],
             "funcs": sorted(set().union(*[eg.functions_in(e) for e in exprs if e[0] != "raw"])) if exprs else [],
             "input": "\n".join(jm.dumps(v) for v in inputs).encode("utf-8"), "policy": rng.choice(POLICIES)}
@@ -153,6 +212,9 @@ def run_unit(ctx, unit):
                      unit, {"args": case.args, "input": unit["input"][:1500], "obs": o.brief()})
         st.see("panic_sites", loc)
         return
+    if unit.get("matrix"):
+        st.count("matrix_evaluations", len(unit["exprs"]))
+        st.see("matrix_cells", (unit["funcs"][0], unit["exprs"][0][:40]))
     if unit["kind"] == "expr":
         st.see("nontrivial", (tuple(unit["funcs"][:6]), unit["pos"], unit["policy"], bool(unit.get("debug"))))
         for f in unit["funcs"]:
@@ -173,7 +235,7 @@ def worker(ctx):
                 st.count("stopped_by_deadline")
                 break
             r = ctx.rng.random()
-            unit = gen_bytes_unit(ctx.rng) if r < 0.3 else gen_expr_unit(ctx.rng)
+            unit = gen_bytes_unit(ctx.rng) if r < 0.3 else gen_matrix_unit(ctx.rng) if r < 0.42 else gen_expr_unit(ctx.rng)
             if unit["kind"] == "expr" and ctx.debug_drv is not None and ctx.rng.random() < 0.35:
                 unit["debug"] = True
             run_unit(ctx, unit)
